@@ -252,14 +252,14 @@ def model_interp(seq, labels, t):
     return r
 
 
-def check_interp(acc, seq, grid):
+def check_interp(acc, seq, grid, dtype="float"):
     labels = ["L%d" % i for i in range(len(seq))]
-    case = {"kind": "interp", "seq": [list(x) for x in seq], "grid": list(grid)}
+    case = {"kind": "interp", "seq": [list(x) for x in seq], "grid": list(grid), "dtype": dtype}
     site = "util.interpolate_intervals"
     acc.transitions += 1
     acc.conform += 1
     try:
-        got = util.interpolate_intervals(np.array(seq, dtype=float), list(labels), np.array(grid, dtype=float),
+        got = util.interpolate_intervals(np.array(seq, dtype=dtype), list(labels), np.array(grid, dtype=float),
                                          fill_value=FILL)
     except Exception as ex:  # noqa
         acc.violation("no-raise", site, case, observed="raised %s: %s" % (type(ex).__name__, ex))
@@ -270,14 +270,14 @@ def check_interp(acc, seq, grid):
         acc.violation("sample-label", site, case, observed=list(got), expected=want)
 
 
-def check_samples(acc, seq, size, offset):
+def check_samples(acc, seq, size, offset, dtype="float"):
     labels = ["L%d" % i for i in range(len(seq))]
-    case = {"kind": "samples", "seq": [list(x) for x in seq], "size": size, "offset": offset}
+    case = {"kind": "samples", "seq": [list(x) for x in seq], "size": size, "offset": offset, "dtype": dtype}
     site = "util.intervals_to_samples"
     acc.transitions += 1
     acc.conform += 1
     try:
-        times, got = util.intervals_to_samples(np.array(seq, dtype=float), list(labels), offset=offset,
+        times, got = util.intervals_to_samples(np.array(seq, dtype=dtype), list(labels), offset=offset,
                                                sample_size=size, fill_value=FILL)
     except Exception as ex:  # noqa
         acc.violation("no-raise", site, case, observed="raised %s: %s" % (type(ex).__name__, ex))
@@ -308,7 +308,8 @@ def check_samples(acc, seq, size, offset):
 
 
 def shard_interp(arg):
-    seqs, grid_pts, gmax, sizes = arg
+    seqs, grid_pts, gmax, sizes = arg[:4]
+    dtype = arg[4] if len(arg) > 4 else "float"      # "int64": integer-typed interval arrays (whole-second annotations)
     acc = core.Acc(PID)
     grids = list(lib.multisets(grid_pts, gmax, 1))
     for seq in seqs:
@@ -316,7 +317,7 @@ def shard_interp(arg):
         shared = set(seq[i][1] for i in range(len(seq) - 1) if seq[i][1] == seq[i + 1][0])
         for grid in grids:
             acc.states += 1
-            acc.tick(lambda: {"kind": "interp", "seq": [list(x) for x in seq], "grid": list(grid)})
+            acc.tick(lambda: {"kind": "interp", "seq": [list(x) for x in seq], "grid": list(grid), "dtype": dtype})
             if set(grid) & shared:
                 acc.counters["interp.sample_on_shared_boundary"] += 1
                 acc.nontrivial += 1
@@ -324,12 +325,15 @@ def shard_interp(arg):
                 acc.counters["interp.sample_on_interval_end"] += 1
             if any(model_interp(seq, [0] * len(seq), t) == FILL for t in grid):
                 acc.counters["interp.sample_outside_all"] += 1
-            check_interp(acc, seq, grid)
+            if dtype != "float":
+                acc.counters["interp.integer_typed_interval_array"] += 1
+            check_interp(acc, seq, grid, dtype)
         for size, offset in sizes:
             acc.states += 1
             acc.nontrivial += 1
-            acc.tick(lambda: {"kind": "samples", "seq": [list(x) for x in seq], "size": size, "offset": offset})
-            check_samples(acc, seq, size, offset)
+            acc.tick(lambda: {"kind": "samples", "seq": [list(x) for x in seq], "size": size, "offset": offset,
+                              "dtype": dtype})
+            check_samples(acc, seq, size, offset, dtype)
     return acc
 
 
@@ -403,9 +407,9 @@ def replay(case, acc):
     elif k == "merge":
         check_merge(acc, tuple(case["cx"]), tuple(case["cy"]), case["unit"], case["start"])
     elif k == "interp":
-        check_interp(acc, [tuple(x) for x in case["seq"]], case["grid"])
+        check_interp(acc, [tuple(x) for x in case["seq"]], case["grid"], case.get("dtype", "float"))
     elif k == "samples":
-        check_samples(acc, [tuple(x) for x in case["seq"]], case["size"], case["offset"])
+        check_samples(acc, [tuple(x) for x in case["seq"]], case["size"], case["offset"], case.get("dtype", "float"))
     elif k == "bounds":
         check_bounds(acc, case["b"])
     else:
@@ -441,6 +445,12 @@ def run(run):
     sizes = [(0.5, 0.0), (0.25, 0.0), (1.0, 0.0), (0.5, 0.25), (1.0, 0.5)]
     run.explore("interpolate/samples", mod, "shard_interp",
                 [(ch, gpts, 4 if thorough else 3, sizes) for ch in core.chunks(iseqs, 32)])
+    # the same on integer-typed interval arrays (annotations in whole seconds), sample points on the half-second lattice
+    zpts = [float(ph + k) for k in range(5)]
+    zseqs = interval_seqs(zpts, 3)
+    zg = [ph + k / 2.0 for k in range(-1 if ph else 0, 10)]
+    run.explore("interpolate/samples, integer-typed intervals", mod, "shard_interp",
+                [(ch, zg, 2, sizes, "int64") for ch in core.chunks(zseqs, 32)])
     dpts = [round(base + k / 10.0, 10) for k in (0, 3, 7, 12, 14, 19, 23)]
     dseqs = interval_seqs(dpts, 3)
     run.explore("intervals_to_samples on the default 0.1 s grid", mod, "shard_interp",
